@@ -1299,4 +1299,203 @@ theorem flushOrph_wf (rs : List (Nat × List Res)) (bs : List Batch)
     simp [flushOrph, h1, h2, tooLong, hb]
 
 
+/-! ### registration waves -/
+
+theorem addToBatch_dests (bs : List Batch) (k item p : Nat) :
+    ∀ b ∈ addToBatch bs k item p, ∀ q ∈ b.dests, (q = p ∧ b.key = k) ∨ (∃ b0 ∈ bs, b0.key = b.key ∧ q ∈ b0.dests) := by
+  induction bs with
+  | nil =>
+    intro b hb q hq
+    simp [addToBatch] at hb; subst hb
+    simp at hq; exact Or.inl ⟨hq, rfl⟩
+  | cons a bs ih =>
+    intro b hb q hq
+    simp only [addToBatch] at hb
+    split at hb
+    · rename_i hk
+      simp at hb hk
+      rcases hb with rfl | hb
+      · simp at hq
+        rcases hq with hq | hq
+        · exact Or.inr ⟨a, by simp, rfl, hq⟩
+        · exact Or.inl ⟨hq, hk⟩
+      · exact Or.inr ⟨b, by simp [hb], rfl, hq⟩
+    · simp at hb
+      rcases hb with rfl | hb
+      · exact Or.inr ⟨b, by simp, rfl, hq⟩
+      · rcases ih b hb q hq with h1 | ⟨b0, hb0, h2, h3⟩
+        · exact Or.inl h1
+        · exact Or.inr ⟨b0, by simp [hb0], h2, h3⟩
+
+/-- The wave tag a pending invocation carries in the current phase. -/
+def pendTag (s : St) : Nat := if s.phase = .top then s.wave - 1 else s.wave
+
+/-- Registration waves: what is pending was registered since the last return of the idle handler;
+    what a call of wave `v` received was registered in the exec phase before it. -/
+structure Inv4 (s : St) : Prop where
+  rwLt : ∀ x ∈ s.regWave, x.1 < s.next
+  rwNodup : (s.regWave.map (·.1)).Nodup
+  pend : ∀ b ∈ s.batches, ∀ p ∈ b.dests, (p, b.key, pendTag s) ∈ s.regWave
+  drainEmpty : s.phase = .drain → s.batches = []
+  callTag : ∀ cl ∈ s.calls, 1 ≤ cl.wave ∧ ∀ p ∈ cl.dests, (p, cl.key, cl.wave - 1) ∈ s.regWave
+  waveTop : s.phase = .top → 1 ≤ s.wave
+  covered : s.phase ≠ .returned → ∀ x ∈ s.regWave, x.1 ∈ qIds s ∨ ∃ cl ∈ s.calls, x.1 ∈ cl.dests
+
+theorem inv4_init : Inv4 init := by
+  constructor <;> simp [init]
+
+theorem inv4_frame {s s' : St} (h : Inv4 s) (hn : s.next ≤ s'.next) (hr : s'.regWave = s.regWave)
+    (hb : s'.batches = s.batches) (hc : s'.calls = s.calls) (hw : s'.wave = s.wave)
+    (hp : s'.phase = s.phase ∨ (s.batches = [] ∧ s'.phase ≠ .top) ∨ (s.phase ≠ .top ∧ s'.phase ≠ .top ∧ s'.phase ≠ .drain))
+    (hret : s.phase = .returned → s'.phase = .returned) : Inv4 s' := by
+  have hq : qIds s' = qIds s := by simp [qIds, hb]
+  refine ⟨?_, by rw [hr]; exact h.rwNodup, ?_, ?_, by rw [hc, hr]; exact h.callTag, ?_, ?_⟩
+  · intro x hx; rw [hr] at hx; exact Nat.lt_of_lt_of_le (h.rwLt x hx) hn
+  · intro b hb' p hp'
+    rw [hb] at hb'
+    rw [hr]
+    have := h.pend b hb' p hp'
+    rcases hp with hp | ⟨he, _⟩ | ⟨h1, h2, _⟩
+    · simpa [pendTag, hp, hw] using this
+    · rw [he] at hb'; cases hb'
+    · simpa [pendTag, h1, h2, hw] using this
+  · intro hd
+    rw [hb]
+    rcases hp with hp | ⟨he, _⟩ | ⟨_, _, h3⟩
+    · exact h.drainEmpty (hp ▸ hd)
+    · exact he
+    · exact absurd hd h3
+  · intro ht
+    rw [hw]
+    rcases hp with hp | ⟨_, h2⟩ | ⟨_, h2, _⟩
+    · exact h.waveTop (hp ▸ ht)
+    · exact absurd ht h2
+    · exact absurd ht h2
+  · intro hne x hx
+    rw [hr] at hx
+    have : s.phase ≠ .returned := fun e => hne (hret e)
+    rw [hq, hc]
+    exact h.covered this x hx
+
+theorem inv4_step {c : Cfg} {s s' : St} {l : Label} (hi : IdsOK s) (h : Inv4 s) (hs : step c s l = some s') : Inv4 s' := by
+  cases l with
+  | go t dep =>
+    obtain ⟨_, hph, rfl, rfl, _⟩ := step_go hs
+    exact inv4_frame h (Nat.le_succ _) rfl rfl rfl rfl (Or.inl rfl) (fun e => e)
+  | chain t ps =>
+    obtain ⟨_, hph, rfl, _, rfl⟩ := step_chain hs
+    exact inv4_frame h (Nat.le_succ _) rfl rfl rfl rfl (Or.inl rfl) (fun e => e)
+  | batch k item p dep =>
+    obtain ⟨_, hph, rfl, rfl, _⟩ := step_batch hs
+    have htag : pendTag s = s.wave := by simp [pendTag, hph]
+    refine ⟨?_, ?_, ?_, ?_, ?_, ?_, ?_⟩
+    · intro x hx
+      simp only [List.mem_cons] at hx
+      rcases hx with rfl | hx
+      · exact Nat.lt_succ_self _
+      · exact Nat.lt_succ_of_lt (h.rwLt x hx)
+    · simp only [List.map_cons]
+      refine List.nodup_cons.mpr ⟨?_, h.rwNodup⟩
+      intro hin
+      simp only [List.mem_map] at hin
+      obtain ⟨x, hx, hx2⟩ := hin
+      have := h.rwLt x hx
+      omega
+    · intro b hb q hq
+      have goal2 : (q, b.key, s.wave) ∈ (s.next, k, s.wave) :: s.regWave := by
+        simp only [List.mem_cons]
+        rcases addToBatch_dests s.batches k item s.next b hb q hq with ⟨rfl, rfl⟩ | ⟨b0, hb0, hk, hq0⟩
+        · exact Or.inl rfl
+        · right
+          have := h.pend b0 hb0 q hq0
+          rw [htag, hk] at this
+          exact this
+      simpa [pendTag, hph] using goal2
+    · intro hd; simp [hph] at hd
+    · intro cl hcl
+      obtain ⟨h1, h2⟩ := h.callTag cl hcl
+      exact ⟨h1, fun p hp => by simp only [List.mem_cons]; exact Or.inr (h2 p hp)⟩
+    · intro ht; simp [hph] at ht
+    · intro _ x hx
+      have hmem : ∀ q, q ∈ qIds s → q ∈ (addToBatch s.batches k item s.next).flatMap (·.dests) := by
+        intro q hq
+        apply List.count_pos_iff.mp
+        rw [count_qIds_addToBatch]
+        have := List.count_pos_iff.mpr hq
+        simp only [qIds] at this
+        omega
+      simp only [List.mem_cons] at hx
+      rcases hx with rfl | hx
+      · left
+        simp only [qIds]
+        apply List.count_pos_iff.mp
+        rw [count_qIds_addToBatch]
+        simp
+      · rcases h.covered (by simp [hph]) x hx with h1 | h1
+        · exact Or.inl (hmem _ h1)
+        · exact Or.inr h1
+  | fin t r =>
+    obtain ⟨_, _, _, _, _, _, rfl⟩ := step_fin hs
+    exact inv4_frame h (Nat.le_refl _) rfl rfl rfl rfl (Or.inl rfl) (fun e => e)
+  | idle =>
+    obtain ⟨_, hph, _, rfl⟩ := step_idle hs
+    refine ⟨h.rwLt, h.rwNodup, ?_, by simp, h.callTag, by simp, ?_⟩
+    · intro b hb p hp
+      have := h.pend b hb p hp
+      simpa [pendTag, hph] using this
+    · intro _ x hx
+      exact h.covered (by simp [hph]) x hx
+  | flush rs =>
+    obtain ⟨_, hph, _, rfl⟩ := step_flush hs
+    rw [flushAll_fresh s.wave rs s.batches s hi.q_not_delivered hi.q_nodup]
+    have hw := h.waveTop hph
+    refine ⟨h.rwLt, h.rwNodup, by simp, by simp, ?_, by simp, ?_⟩
+    · intro cl hcl
+      simp only [List.mem_append, List.mem_reverse, List.mem_map] at hcl
+      rcases hcl with ⟨b, hb, rfl⟩ | hcl
+      · refine ⟨hw, ?_⟩
+        intro p hp
+        have := h.pend b hb p hp
+        simpa [pendTag, hph, mkCall] using this
+      · exact h.callTag cl hcl
+    · intro _ x hx
+      rcases h.covered (by simp [hph]) x hx with h1 | ⟨cl, hcl, h1⟩
+      · right
+        simp only [qIds, List.mem_flatMap] at h1
+        obtain ⟨b, hb, hxb⟩ := h1
+        refine ⟨mkCall s.wave rs b, ?_, hxb⟩
+        simp only [List.mem_append, List.mem_reverse, List.mem_map]
+        exact Or.inl ⟨b, hb, rfl⟩
+      · right
+        exact ⟨cl, by simp only [List.mem_append]; exact Or.inr hcl, h1⟩
+  | recvBlock t =>
+    obtain ⟨r, _, _, hph, hb, hl, rfl⟩ := step_recvBlock hs
+    rw [took_eq hi (lookup_some_mem hl)]
+    split
+    · exact inv4_frame h (Nat.le_refl _) rfl rfl rfl rfl (Or.inl (by simp)) (by simp [hph])
+    · exact inv4_frame h (Nat.le_refl _) rfl rfl rfl rfl (Or.inr (Or.inl ⟨hb, by simp⟩)) (by simp [hph])
+  | drain t =>
+    obtain ⟨r, _, _, hph, hl, rfl⟩ := step_drain hs
+    rw [took_eq hi (lookup_some_mem hl)]
+    exact inv4_frame h (Nat.le_refl _) rfl rfl rfl rfl (Or.inl rfl) (fun e => e)
+  | idleRet =>
+    obtain ⟨_, _, hph, rfl⟩ := step_idleRet hs
+    exact inv4_frame h (Nat.le_refl _) rfl rfl rfl rfl (Or.inr (Or.inl ⟨h.drainEmpty hph, by simp⟩)) (by simp [hph])
+  | ret =>
+    obtain ⟨_, hph, rfl⟩ := step_ret hs
+    split
+    · rw [finishBatches_eq hi]
+      refine ⟨h.rwLt, h.rwNodup, by simp, by simp, h.callTag, by simp, by simp⟩
+    · exact inv4_frame h (Nat.le_refl _) rfl rfl rfl rfl (Or.inr (Or.inr ⟨by simp [hph], by simp, by simp⟩)) (by simp)
+  | release t =>
+    obtain ⟨r, _, _, hph, hl, rfl⟩ := step_release hs
+    rw [took_eq hi (lookup_some_mem hl)]
+    exact inv4_frame h (Nat.le_refl _) rfl rfl rfl rfl (Or.inl rfl) (fun e => e)
+
+theorem Reachable.inv4 {c : Cfg} {s : St} (h : Reachable c s) : Inv4 s := by
+  induction h with
+  | init => exact inv4_init
+  | step hr hs ih => exact inv4_step hr.idsOK ih hs
+
+
 end ApiFu.C15
